@@ -730,18 +730,20 @@ pub fn execute_user(scn: &UserShapeScn, ctx: &mut Ctx) {
         "late" => {
             let world = World::new(Plan::default());
             let mut w = shapefile::ShapeWriter::new(Stack::writer(&world, SHP, StackCfg::Direct));
-            let offered = || OFFERED_SHP.with(|c| c.get());
+            // bytes a call puts into the record area of the .shp device (Direct stack)
+            let record_bytes = |from: usize| -> u64 { world.borrow().log[from..].iter().filter(|e| e.dev as usize == SHP && e.kind == OpKind::Write && e.pos >= 100).map(|e| e.moved as u64).sum() };
+            let evs = || world.borrow().log.len();
             let late = LatePoint { attempts: std::cell::Cell::new(0) };
             let r = guarded(|| {
                 let mut deltas = Vec::new();
-                let o = offered();
+                let e0 = evs();
                 let r0 = w.write_shape(&shapefile::Point::new(1.0, 2.0));
-                deltas.push((r0.is_ok(), offered() - o));
+                deltas.push((r0.is_ok(), record_bytes(e0)));
                 let _ = w.write_shape(&late); // fails half-way by itself
                 for s in 0..2 {
-                    let o = offered();
+                    let e0 = evs();
                     let r = if s == 0 { w.write_shape(&late) } else { w.write_shape(&shapefile::Point::new(3.0, 4.0)) };
-                    deltas.push((r.is_ok(), offered() - o));
+                    deltas.push((r.is_ok(), record_bytes(e0)));
                 }
                 deltas
             });
@@ -749,9 +751,8 @@ pub fn execute_user(scn: &UserShapeScn, ctx: &mut Ctx) {
                 Err(p) => ctx.fail("C18", "panic", p.site(), p.text()),
                 Ok(deltas) => {
                     for (i, (ok, d)) in deltas.iter().enumerate() {
-                        let want = if i == 0 { 100 + 28 } else { 28 };
-                        if *ok && *d != want {
-                            ctx.fail("C18", "bytes-at-seam", "user-defined-after-own-failure", format!("successful write #{} handed {} bytes to the .shp for an announced size of 16 (+12{})", i, d, if i == 0 { " +100" } else { "" }));
+                        if *ok && *d != 28 {
+                            ctx.fail("C18", "bytes-at-seam", "user-defined-after-own-failure", format!("successful write #{} put {} bytes into the record area of the .shp for an announced size of 16 (+12)", i, d));
                         }
                         if !*ok {
                             ctx.fail("C18", "write-ok", "user-defined", format!("write #{} of the user-defined history failed", i));
